@@ -61,7 +61,8 @@ def main():
         suite = "skipped"
         if not a.skip_suite:
             rcs, outs = sh([PY, "-m", "pytest", "-q", "-p", "no:cacheprovider", "--timeout=900", "-n", "6", "--no-cov"], cwd=wt, timeout=1800)
-            suite = (outs.strip().splitlines() or [""])[-1]
+            m = re.findall(r"^.*\d+ passed.*$|^.*\d+ failed.*$", outs, re.M)
+            suite = m[-1].strip() if m else (outs.strip().splitlines() or [""])[-1]
             meta["ran"].append(f"test suite with the change: rc={rcs} {suite}")
         sh(["git", "-C", wt, "checkout", "--", "docs"])
         reported = {}
@@ -81,6 +82,10 @@ def main():
         meta["reported_by"] = [f"{p}: {', '.join(r)}" for p, r in reported.items() if exits[p] == 1]
         meta["analysis_errors"] = [f"{p}: {r[0]}" for p, r in reported.items() if exits[p] == 2]
         meta["caught_by_own_property"] = exits.get(a.prop) == 1
+        if exits.get(a.prop) == 2:
+            meta["miss_reason"] = "own check is inconclusive (exit 2, ANALYSIS-ERROR / unrecognised idiom): not a verdict"
+        elif exits.get(a.prop) == 0:
+            meta["miss_reason"] = "own check passes (exit 0)"
         ok = rc0 == 0 and rc1 != 0 and (a.skip_suite or "348 passed" in suite)
         meta["confirmed"] = ok
         dest = os.path.join(VERIF, "seeded", a.id)
